@@ -141,7 +141,8 @@ def recs_for(draw, fmt, n):
         depth = draw(st.floats(0, 700))
         mag = draw(st.floats(0.1, 9.5))
         if fmt == "csep-csv":
-            ms = draw(st.one_of(st.integers(-2208988800000, 7258118400000), st.integers(-2208988800, 7258118400).map(lambda x: x * 1000)))
+            ms = draw(st.one_of(st.integers(-2208988800000, 7258118400000), st.integers(-2208988800, 7258118400).map(lambda x: x * 1000),
+                                st.tuples(st.integers(-2208988800, 7258118400 - 1), st.sampled_from([100, 500, 250, 10, 990, 120])).map(lambda t: t[0] * 1000 + t[1])))
             out.append({"ms": ms, "lat": lat, "lon": lon, "depth": depth, "mag": mag})
         elif fmt == "zmap":
             out.append({"year": y, "month": m, "day": d, "hour": hh, "minute": mi, "second": draw(st.sampled_from([0, 59, 30, 1])),
@@ -186,7 +187,7 @@ def cases(draw, max_n=50):
     if fmt in ("csep-csv", "jma-csv"):
         c["header"] = draw(st.booleans())
     if fmt == "csep-csv":
-        c["frac"] = draw(st.sampled_from(["auto", "us", "ms"]))
+        c["frac"] = draw(st.sampled_from(["auto", "us", "ms", "short"]))
         c["eol"] = draw(st.sampled_from(["\n", "\r\n"]))
         c["blank_ids"] = draw(st.booleans())
         c["catalog_id"] = draw(st.sampled_from([0, 7, None]))
